@@ -30,6 +30,9 @@ pub struct PsetSpec {
     pub blinded_outputs: bool,
     pub elip: bool,
     pub globals: bool,
+    /// Some(n): the n-th real PSET of the repository's own vectors instead of a generated one
+    #[serde(default)]
+    pub corpus: Option<u32>,
 }
 
 impl PsetSpec {
@@ -48,7 +51,16 @@ impl PsetSpec {
             blinded_outputs: p.chance(1, 2),
             elip: p.chance(1, 3),
             globals: p.chance(2, 3),
+            corpus: None,
         }
+    }
+    pub fn draw_with_corpus(p: &mut Prng, one_in: u64) -> PsetSpec {
+        let mut s = PsetSpec::draw(p);
+        let n = p.u32();
+        if p.chance(1, one_in) {
+            s.corpus = Some(n);
+        }
+        s
     }
     pub fn shrinks(&self) -> Vec<PsetSpec> {
         let mut v = Vec::new();
@@ -57,6 +69,7 @@ impl PsetSpec {
                 v.push(s)
             }
         };
+        push(PsetSpec { corpus: None, ..self.clone() });
         push(PsetSpec { n_in: self.n_in / 2, ..self.clone() });
         push(PsetSpec { n_out: self.n_out / 2, ..self.clone() });
         push(PsetSpec { n_in: self.n_in.saturating_sub(1), ..self.clone() });
@@ -524,6 +537,11 @@ pub fn output(p: &mut Prng, s: &PsetSpec, n_inputs: usize) -> Output {
 }
 
 pub fn pset(s: &PsetSpec) -> Pset {
+    if let Some(n) = s.corpus {
+        if let Some(Ok(ps)) = crate::corpus::pset(n) {
+            return ps;
+        }
+    }
     let mut p = Prng::from_u64(s.seed);
     let mut ps = Pset::new_v2();
     if s.globals {
